@@ -64,6 +64,9 @@ func TestC03(t *testing.T) {
 	// distinct Ciphers / package-level HChaCha20 used by several goroutines at once
 	c03Concurrent(m)
 
+	// the constructor must not retain the caller's key/nonce buffers
+	c03Retention(m)
+
 	// HChaCha20 as exported (the XChaCha20 subkey derivation on its own)
 	m.Cases("hchacha", m.N(400, 5000), func(i int64, r *rand.Rand) {
 		key, in := mon.Bytes(r, 32), mon.Bytes(r, 16)
